@@ -71,6 +71,15 @@ def noPartialPackage (b : Backend) (refused : Bool) (written : List Written) (ru
   else
     written == b.files.map (fun f => ⟨f, true⟩) && runnerExec
 
+/-- **nothing asked for is silently dropped**, for job-script blocks: every line of every block the
+query sends is among the lines that reach the rendered files (`emitted`) -/
+def jobLinesKept (jobs : List C15.JB) (emitted : List String) : Bool :=
+  jobs.all fun jb => jb.script.all emitted.contains
+
+/-- a backend that does NOT build a job script is sent job-script blocks: whatever they say
+(well-formed or not) it has no way to honour them -/
+def jobsUnserved (b : Backend) (q : Query) : Bool := !b.jobScripts && !(jobBlocks q).isEmpty
+
 /-- **refused iff malformed** on the executor level (decidable part; the job-script clause is
 evaluated through `jobMalformedB`) -/
 def execMalformedB (b : Backend) (env : Env) (st : ExecState) (q : Query) : Bool :=
